@@ -64,6 +64,9 @@ def cases(rng, tier):
                "home_spelling": rng.choice(["slash", "dslash", "dot", "dotdot", "slashes"])}
     for n in rng.sample([v for v in names if v.startswith("sandvine")], 2):
         yield {"name": n, "unpack": False, "doc": n, "home_spelling": "slash"}
+    # a working directory that holds files named like the bundled resources
+    for n in rng.sample([v for v in names if v.startswith("sandvine")], 5):
+        yield {"name": n, "unpack": rng.random() < 0.5, "doc": n, "cwd_shadow": True}
     # after the module that holds the loader machinery was reloaded (autoreload in a notebook), bundled and remote
     for n in rng.sample(names, 6):
         yield {"name": n, "unpack": False, "doc": n, "after_reload": True}
@@ -86,6 +89,30 @@ def fake_payload(url):
 
 
 def run_impl(c):
+    import traffic_weaver.datasets._base as base
+    from traffic_weaver.datasets import load_dataset
+    old_cwd = None
+    if c.get("cwd_shadow"):
+        # the application's working directory holds files named like the bundled resources (its own raw exports)
+        old_cwd = os.getcwd()
+        shadow = tempfile.mkdtemp(prefix="twv-c18cwd-")
+        for folder in ("sandvine", "datasets", "traffic_weaver"):
+            os.makedirs(os.path.join(shadow, folder), exist_ok=True)
+        base_name = c["doc"].split("_", 1)[1] if "_" in c["doc"] else c["doc"]
+        for fn in {base_name, c["doc"], base_name.replace("-", "_"), base_name.replace("_", "-")}:
+            for folder in ("sandvine", "."):
+                with open(os.path.join(shadow, folder, fn + ".csv"), "w") as f:
+                    f.write("3,1\n2,nan\n1,5\n0,7\n")
+        os.chdir(shadow)
+    try:
+        return _run_impl(c)
+    finally:
+        if old_cwd is not None:
+            os.chdir(old_cwd)
+            shutil.rmtree(shadow, ignore_errors=True)
+
+
+def _run_impl(c):
     import traffic_weaver.datasets._base as base
     from traffic_weaver.datasets import load_dataset
     if c.get("after_reload"):
